@@ -403,6 +403,66 @@ def stateless(R, B, rng):
         R.check(c1.hash == c2.hash, 'vmstack-serialize-twice-differs', 'serialising the same stack twice gives different cells')
 
 
+def isolation_matrix(R, B, rng):
+    """deterministic part of 'derived objects are isolated snapshots': for cells of every size class (empty, one bit, byte boundaries, around 700, 1016/1017, full)
+    and 0/1/4 references, every first- and second-order derivation (slices, copies, builders, cells made from them) is taken, one object of each pair is used up
+    (slice read to its end / builder filled / bits inverted in place) and the other must still show the original content; the source cell never changes"""
+    def content(o):
+        return (o.bits.to01(), tuple(x.hash for x in (o.refs[o.ref_offset:] if hasattr(o, 'ref_offset') else o.refs)))
+
+    def use_up(o):
+        if isinstance(o, B.Slice):
+            o.load_bits(o.remaining_bits)
+            while o.remaining_refs:
+                o.load_ref()
+        elif isinstance(o, B.Builder):
+            if o.available_bits:
+                o.store_bits('1' * min(9, o.available_bits))
+            while o.available_refs:
+                o.store_ref(B.Builder().store_uint(1, 1).end_cell())
+            o.bits.invert()
+        elif isinstance(o, B.Cell):
+            use_up(o.begin_parse())
+            use_up(o.to_builder())
+    kids = [B.Builder().store_uint(i, 4).end_cell() for i in range(4)]
+    first = {'begin_parse': lambda c: c.begin_parse(), 'Slice.from_cell': lambda c: B.Slice.from_cell(c), 'to_slice': lambda c: c.to_slice(), 'copy': lambda c: c.copy(),
+             'to_builder': lambda c: c.to_builder()}
+    second = {'copy': lambda o: o.copy(), 'to_cell': lambda o: o.to_cell(), 'to_builder': lambda o: o.to_builder(), 'to_slice': lambda o: o.to_slice(), 'begin_parse': lambda o: o.begin_parse(),
+              'end_cell': lambda o: o.end_cell(), 'store_slice': lambda o: B.Builder().store_slice(o), 'store_cell': lambda o: B.Builder().store_cell(o)}
+    for nbits in (0, 1, 7, 8, 9, 64, 699, 700, 701, 1015, 1016, 1017, 1023):
+        for nrefs in (0, 1, 4):
+            bits = gen.rand_bits(rng, nbits)
+            b = B.Builder().store_bits(bits)
+            for k in kids[:nrefs]:
+                b.store_ref(k)
+            cell = b.end_cell()
+            want = (bits, tuple(k.hash for k in kids[:nrefs]))
+            h0, boc0 = cell.hash, cell.to_boc(True, True)
+            for fname, f in first.items():
+                for sname, g in second.items():
+                    st, d1 = mon.call(f, cell)
+                    if st == 'exc':
+                        continue
+                    st, d2 = mon.call(g, d1)
+                    if st == 'exc' or not hasattr(d2, 'bits') or not hasattr(d1, 'bits'):
+                        continue              # that derivation does not exist for this kind of object
+                    W = {'bits': nbits, 'refs': nrefs, 'first': fname, 'second': sname}
+                    for victim, witness, which in ((d1, d2, 'first used, second inspected'), (d2, d1, 'second used, first inspected')):
+                        if victim is d2:
+                            d1 = f(cell)
+                            d2 = g(d1)
+                            victim, witness = d2, d1
+                        st, e = mon.call(use_up, victim)
+                        R.count('isolation_matrix_cases')
+                        R.counters['oracle_evaluations'] += 1
+                        if content(witness) != want:
+                            R.violation(f'derived-objects-share-state-{fname}-{sname}', f'{fname}() then {sname}(): using one object up changed the other ({which}): it now holds '
+                                        f'{len(content(witness)[0])} bits / {len(content(witness)[1])} refs instead of {nbits} / {nrefs}', W)
+                        if content(cell) != want or cell.hash != h0 or cell.to_boc(True, True) != boc0:
+                            R.violation(f'source-cell-changed-{fname}-{sname}', f'{fname}() then {sname}(): using the derived objects changed the cell they came from', W)
+                    R.cover('isolation_pairs', (fname, sname))
+
+
 def order_independence(R):
     """the probe set of checks/probes_c08.py (528 deterministic calls, many near-duplicates of each other) evaluated in fresh interpreters in several orders:
     every probe must give the same result whatever was called before it"""
@@ -465,6 +525,8 @@ def run(R):
         R.count('histories')
     stateless(R, B, rng)
     if R.shard == 0:
+        isolation_matrix(R, B, rng)
+        R.floor('isolation_matrix_cases', 500)
         order_independence(R)
         R.floor('probes', 400)
         R.floor('probe_orders_compared', 3)
